@@ -325,7 +325,8 @@ func runCrashPoints(e *core.Env) {
 		}
 		// ---- the server is restarted on what the crash left behind (store file plus whatever else is in its directory),
 		// another change is made through the API and the service is stopped cleanly: that change must be on disk ----
-		if faulted {
+		if faulted && (!e.Quick() || c.K%4 == 0 || c.K == L-1) {
+			// (quick tier: every fourth crash point and the last one; thorough: every crash point)
 			sp2 := spec{Path: path, Initial: got, Op: "add-after-restart", K: -1, Mode: "kill"}
 			sb2, _ := json.Marshal(sp2)
 			os.WriteFile(filepath.Join(dir, "spec.json"), sb2, 0o644)
